@@ -135,6 +135,8 @@ func menu() []udpx.Op {
 			udpx.Op{K: "X", C: c, T: 0, N: 9},
 		)
 	}
+	// destinations that must not create an association: private literal, name resolving to a private address
+	m = append(m, udpx.Op{K: "S", C: 0, Key: 0, T: 1, N: 4, Mod: "private"}, udpx.Op{K: "S", C: 1, Key: 1, T: 1, N: 4, Mod: "private-domain"})
 	m = append(m, udpx.Op{K: "A", D: 9 * time.Second}, udpx.Op{K: "A", D: 11 * time.Second})
 	return m
 }
